@@ -590,9 +590,15 @@ def check_tick(res, facts, prop):
             # level: non-monotone and a step), and a new phase starts at phase 0 (else the new curve starts in mid-air).
             full = prop == 'C02'
             timing = prop in ('C02', 'C01')     # the shape statement needs every phase to progress at the programmed rate and to end
-            if prop not in ('C02', 'C01', 'C03'):
+            # C17 ("every envelope ... reaches its sustain level, and every release reaches rest, after finitely many ticks"):
+            # only what termination needs — legal order of the phases, a wrap is never missed, strict progress while
+            # staying, increment >= 1, the unchecked addition fits.  How long a phase lasts is C02's business.
+            live = prop == 'C17'
+            if prop not in ('C02', 'C01', 'C03', 'C17'):
                 continue
             if state not in TIME_FIELD:
+                if live:
+                    continue
                 allowed = {'value'}
                 if full:
                     res.ob('R-FSM', inst0 + '|persist', s1 == state and set(ch) <= allowed, 'state %s -> %s, writes %s (sustain/rest persist until a gate event)' % (state, s1, ch), where, key='R-FSM:%s:persist' % inst0)
@@ -609,7 +615,9 @@ def check_tick(res, facts, prop):
                 continue
             total_sum = acc0 + inc1.term
             rolled = o.ctx.decide(cmp_term('Gt', total_sum, mask))
-            if s1 == TICK_NEXT[state]:
+            if s1 == TICK_NEXT[state] and live:
+                pass
+            elif s1 == TICK_NEXT[state]:
                 res.ob('R-ROLLOVER', inst0 + '->%s' % s1, rolled is True,
                        'phase advances although acc+inc > mask is not implied by the path condition %s' % (o.ctx.facts[-3:],), where, key='R-ROLLOVER:%s:adv' % inst0)
                 ok = pa1.get('accumulator').term == ZERO and (bool_of(o.ctx, pa1.get('rolled_over')) is False or not full)
@@ -623,9 +631,12 @@ def check_tick(res, facts, prop):
                     res.ob('R-FSM', inst0 + '->stay|advance', got_acc == exp_acc or got_acc == t_mod(total_sum, Poly.const(mask + 1), o.ctx),
                            'accumulator after a non-wrapping tick = %r, expected acc + increment' % (got_acc,), where, key='R-FSM:%s:stay-acc' % inst0)
                     res.ob('R-FSM', inst0 + '->stay|flag', bool_of(o.ctx, pa1.get('rolled_over')) is False, 'rolled_over left set: %r' % (pa1.get('rolled_over'),), where, key='R-FSM:%s:stay-flag' % inst0)
+                if live:
+                    res.ob('R-FSM', inst0 + '->stay|progress', o.ctx.decide(cmp_term('Gt', got_acc, acc0)) is True,
+                           'accumulator after a non-wrapping tick = %r: not provably above the accumulator before (%r), the phase may never end' % (got_acc, acc0), where, key='R-FSM:%s:stay-progress' % inst0)
             else:
                 res.ob('R-FSM', inst0 + '->%s' % s1, False, 'illegal transition %s -> %s on tick' % (state, s1), where, key='R-FSM:%s:illegal' % inst0)
-            if not timing:
+            if not (timing or live):
                 continue
             if full:
                 allowed = {'value', 'state', 'phase_accumulator.accumulator', 'phase_accumulator.last_accumulator', 'phase_accumulator.increment', 'phase_accumulator.rolled_over'}
